@@ -4,35 +4,110 @@ count as a violation of the property."""
 import check as C
 
 Q, T = "quick", "thorough"
+EVAL_CATS = ("outcome", "panic", "compile-rejected", "compile-panic", "compile-inconsistent")
 
 
-def eval_family(ctx, family, stride_quick, stride_thorough=1, shards=None, cats=("outcome", "panic"),
-                mc=True, mc_stride_quick=None, oneshot=False, module="Gen_Eval", mc_module="MC_Eval",
-                extra_constants=None):
-    """L1: model-check the family's theorem on the spec; L2: generate the family and replay it."""
+def eval_family(ctx, family, strides, shards=None, cats=EVAL_CATS,
+                mc=True, oneshot=False, module="Gen_Eval", mc_module="MC_Eval", extra_constants=None, canary_every=5000):
+    """L1: model-check the family's theorem on the spec; L2: generate the family and replay it.
+    strides = {tier: (stride for levels 1-2, stride for level 3)}; stride 1 = exhaustive."""
     quick = ctx.tier == Q
-    stride = stride_quick if quick else stride_thorough
+    stride, stride3 = strides[ctx.tier]
     consts = dict(extra_constants or {})
     if mc:
-        mstride = (mc_stride_quick or stride_quick) if quick else max(1, stride_thorough)
-        c = {"Dev": "{}", "Tier": ctx.tier, "Family": family, "NBlocks": 64, "Stride": mstride, "Seed": ctx.seed}
+        c = {"Dev": "{}", "Tier": ctx.tier, "Family": family, "NBlocks": 64, "Stride": stride, "Stride3": stride3, "Seed": ctx.seed}
         c.update(consts)
         C.model_check(ctx, mc_module, c, invariants=["Holds"], spec="Spec", name="%s_%s" % (mc_module, family),
                       extra_cfg=["VIEW View"], workers=C.NCPU, timeout=3000)
-    files = C.generate(ctx, module, family, consts, shards or (8 if quick else 16), stride=stride,
-                       timeout=3000)
-    C.replay(ctx, files, set(cats), oneshot=oneshot)
-    ctx.bounds[family] = {"stride": stride, "exhaustive": stride == 1}
+    consts["Stride3"] = stride3
+    files = C.generate(ctx, module, family, consts, shards or (8 if quick else 16), stride=stride, timeout=3000)
+    C.replay(ctx, files, set(cats), oneshot=oneshot, canary_every=canary_every)
+    ctx.bounds[family] = {"stride_levels_1_2": stride, "stride_level_3": stride3, "exhaustive": stride == 1 and stride3 == 1}
 
 
 def c01(ctx):
     ctx.rule = ("cases = every expression of the bounded core universe (Families.tla, family C01: leaves x 14 "
                 "schemas, two levels) x every document of DocsCore, each in 3 spellings; a case is non-trivial when "
                 "its allowed set is not {ok null} and the expression has >= 2 nodes; distinct by (source text, document)")
-    eval_family(ctx, "C01", stride_quick=12, stride_thorough=1)
+    eval_family(ctx, "C01", {Q: (12, 4001), T: (1, 211)})
+    ctx.exhaustive = False
+
+
+def negative(ctx, family, dev, strides=(1, 50)):
+    """Negative control of the model: with the deviation switch on, the family's theorem must fail."""
+    c = {"Dev": '{"%s"}' % dev, "Tier": ctx.tier, "Family": family, "NBlocks": 64, "Stride": strides[0], "Stride3": strides[1], "Seed": ctx.seed}
+    C.model_check(ctx, "MC_Eval", c, invariants=["Holds"], spec="Spec", name="MC_Eval_%s_%s" % (family, dev),
+                  extra_cfg=["VIEW View"], workers=C.NCPU, timeout=1200, negative=True)
+
+
+NT_DEFAULT = "a case is non-trivial when its allowed set is not {ok null} and the expression has >= 2 nodes; distinct by (source text, document)"
+
+
+def c02(ctx):
+    ctx.rule = ("family C02 (Families.tla): 5 projection kinds x 4 bases x 12 right-hand sides (x conditions / slices), wrapped by 19 "
+                "schemas (second projection, flatten, filter, pipe, index, ||, &&, ==, !, sub-expression, as RHS of another projection, "
+                "multi-select, function argument) x documents with empty / heterogeneous / null-containing arrays and objects; " + NT_DEFAULT)
+    eval_family(ctx, "C02", {Q: (7, 1), T: (1, 1)})
+    negative(ctx, "C02", "PresizedWildcard", (3, 1))
     ctx.exhaustive = ctx.tier == T
 
 
+def c07(ctx):
+    ctx.rule = ("family C07: all ordered pairs of the value universe V7 (incl. look-alikes of other types) x 6 comparators, ||, &&, and !, "
+                "operands as literals; nestings of two operators (level 3, sampled); family C07d: the same operators with both operands "
+                "read from the document and inside filter conditions, all pairs of V7 as documents; " + NT_DEFAULT)
+    eval_family(ctx, "C07", {Q: (1, 101), T: (1, 5)})
+    eval_family(ctx, "C07d", {Q: (1, 1), T: (1, 1)})
+    ctx.exhaustive = False
+
+
+def c09(ctx):
+    ctx.rule = ("family C09: every value of the typed universe FnVals as the (first) argument of every built-in (one-argument forms, and "
+                "two-argument forms over operand pools for strings, separators, key expressions, objects); C09n: calls nested in "
+                "projections, filters, multi-selects, other calls, pipes; non-trivial: the call is well-typed (allowed set has an ok outcome); "
+                "distinct by (source text, document)")
+    eval_family(ctx, "C09", {Q: (3, 1), T: (1, 1)})
+    eval_family(ctx, "C09n", {Q: (1, 1), T: (1, 1)})
+    if ctx.tier == T:
+        negative(ctx, "C09", "AvgEmptyNaN")
+    ctx.exhaustive = ctx.tier == T
+
+
+def c10(ctx):
+    ctx.rule = ("family C10: 26 names + 2 unknown names x argument counts 0..3 (thorough 0..4) x all tuples over 11 type representatives, "
+                "arguments as literals; C10d: the same with arguments read from document fields; C10k: sort_by/max_by/min_by/map x key "
+                "expressions x arrays of length 0..3; non-trivial: at least one ill-typed, missing or extra argument (allowed = {err})")
+    eval_family(ctx, "C10", {Q: (2, 1), T: (1, 1)})
+    eval_family(ctx, "C10d", {Q: (1, 1), T: (1, 1)})
+    eval_family(ctx, "C10k", {Q: (1, 1), T: (1, 1)})
+    negative(ctx, "C10k", "SkipKeyCheckSingleton")
+    if ctx.tier == T:
+        negative(ctx, "C10", "UncheckedVariadic")
+        negative(ctx, "C10", "ExprefAsAny")
+    ctx.exhaustive = ctx.tier == T
+
+
+def c11(ctx):
+    ctx.rule = ("family C11: 5 erroring expressions + 2 controls plugged into 38 one-hole contexts (every operator side, sub/index/pipe side, "
+                "5 projection kinds' left side / RHS / condition, function argument positions, expression-reference bodies, multi-select "
+                "members) and all depth-2 compositions of contexts x documents; non-trivial: the allowed set is {err} (the context is strict "
+                "on the document); distinct by (source text, document)")
+    eval_family(ctx, "C11", {Q: (1, 3), T: (1, 1)})
+    negative(ctx, "C11", "SwallowLeftError")
+    ctx.exhaustive = ctx.tier == T
+
+
+def c16(ctx):
+    ctx.rule = ("family C16: numeric and empty-result corner cases (aggregates of empty arrays, to_number string table incl. inf/nan/1e400/"
+                "hex floats, empty projections/slices/keys/values/merge/map) plus the JSON-closure walk on every successful result of the "
+                "C01, C02 and C09 families; non-trivial: the result contains a number, an array or an object")
+    eval_family(ctx, "C16", {Q: (1, 1), T: (1, 1)}, cats=EVAL_CATS + ("nonjson",))
+    eval_family(ctx, "C09", {Q: (11, 1), T: (2, 1)}, cats=("nonjson",), mc=False)
+    eval_family(ctx, "C02", {Q: (23, 1), T: (3, 1)}, cats=("nonjson",), mc=False)
+    eval_family(ctx, "C01", {Q: (37, 100000), T: (5, 1001)}, cats=("nonjson",), mc=False)
+    ctx.exhaustive = False
+
+
 PIPELINES = {
-    "C01": c01,
+    "C01": c01, "C02": c02, "C07": c07, "C09": c09, "C10": c10, "C11": c11, "C16": c16,
 }
